@@ -160,6 +160,46 @@ example : ∃ (d : Rf24) (w : World) (ops : List Op), (∀ op ∈ ops, op.Valid)
   ⟨{ rid := 0, config := 0x0C }, World.fresh 1,
    [.openRx 0 [0xA1, 0xA2, 0xA3], .openTx [1, 2, 3, 4, 5], .listen true], by decide, by decide, by decide⟩
 
+/-! ## the prefix clause at full address width (review item: "state on `take aw` with `aw ≤ |a|`") -/
+
+/-- **What the chip matches on pipe 0.**  `RxEntryOk` / `TxReady` state the user's (resp. TX) address
+    as the LOW `len(a)` bytes of the 5-byte register.  Whenever the address is at least as long as the
+    radio's address width (`aw ≤ |a|` — always the case for the library's documented use: addresses of
+    `address_length` bytes), the `aw` bytes the chip actually compares are exactly the address's first
+    `aw` bytes: right after `listen = True` pipe 0 matches **the user's address and nothing else**
+    (no byte of it can stem from an earlier `open_tx_pipe`), and after `open_tx_pipe(t)` in the TX role
+    with auto-ack it matches `t`, which is also what TX_ADDR sends.  For a SHORTER address
+    (`|a| < aw`) only the prefix statement holds — the remaining `aw − |a|` bytes are whatever the
+    register held (the documented partial write; the example of the header). -/
+theorem C08_full_width (r : Radio) :
+    (∀ a, RxEntryOk (some a) r → r.aw ≤ a.length → (r.rxAddr 0).take r.aw = a.take r.aw) ∧
+    (∀ t, TxReady t r → r.config &&& 1 = 0 → r.enAA &&& 1 ≠ 0 → r.aw ≤ t.length →
+      (r.rxAddr 0).take r.aw = t.take r.aw ∧ r.txAddr.take r.aw = t.take r.aw) := by
+  have key : ∀ (a reg : Bytes) (n : Nat), IsPrefix a reg → n ≤ a.length → reg.take n = a.take n := by
+    intro a reg n h hn
+    unfold IsPrefix at h
+    rw [← h, List.take_take, Nat.min_eq_left hn]
+  refine ⟨fun a h haw => ?_, fun t h h0 h1 haw => ?_⟩
+  · exact key a _ _ h.2.2.2 haw
+  · obtain ⟨_, h2, h3⟩ := h h0 h1
+    exact ⟨key t _ _ h2 haw, key t _ _ h3 haw⟩
+
+/-- both hypotheses instantiated: a radio right after `listen = True` on the user's 5-byte address at
+    address width 5, and one right after `open_tx_pipe` of a 5-byte address -/
+example :
+    RxEntryOk (some [1, 2, 3, 4, 5]) { config := 0x0F, ce := true, enRxAddr := 1, rxAddr0 := [1, 2, 3, 4, 5] } ∧
+    ({ config := 0x0F, ce := true, enRxAddr := 1, rxAddr0 := [1, 2, 3, 4, 5] } : Radio).aw ≤ 5 ∧
+    TxReady [9, 8, 7, 6, 5] { config := 0x0E, enAA := 0x3F, enRxAddr := 1, rxAddr0 := [9, 8, 7, 6, 5],
+                              txAddr := [9, 8, 7, 6, 5] } := by decide
+
+/-- … and why the side condition is needed: a 3-byte user address at width 5 after an
+    `open_tx_pipe(0102030405)` round trip satisfies `RxEntryOk`, but the chip matches `A1 A2 A3 04 05` -/
+example :
+    RxEntryOk (some [0xA1, 0xA2, 0xA3])
+      { config := 0x0F, ce := true, enRxAddr := 1, rxAddr0 := [0xA1, 0xA2, 0xA3, 4, 5] } ∧
+    (({ config := 0x0F, ce := true, enRxAddr := 1, rxAddr0 := [0xA1, 0xA2, 0xA3, 4, 5] } : Radio).rxAddr 0).take 5
+      = [0xA1, 0xA2, 0xA3, 4, 5] := by decide
+
 namespace Demo
 /-- two radios: the sender's object right after `__enter__` (registers = its default shadows), and a
     peer listening on pipe 1 with the default configuration -/
